@@ -1,10 +1,12 @@
 use crate::engine::{Ctx, Fail};
 
 pub mod c03;
+pub mod c04;
 
 pub fn run(ctx: &Ctx) -> bool {
     match ctx.id.as_str() {
         "C03" => c03::run(ctx),
+        "C04" => c04::run(ctx),
         _ => return false,
     }
     true
@@ -14,6 +16,7 @@ fn replay_one(ctx: &Ctx, sub: &str, input: &serde_json::Value) -> Option<Result<
     let _ = sub;
     Some(match ctx.id.as_str() {
         "C03" => c03::replay(ctx, input),
+        "C04" => c04::replay(ctx, sub, input),
         _ => return None,
     })
 }
